@@ -394,7 +394,7 @@ func runC13(x *core.Ctx) {
 				if sl.Big != nil && sl.Big(val) {
 					return true
 				}
-				return sl.N > 64 && val > 3 && val != sl.Primary // keep the 256-value reason/code domains small here
+				return sl.N >= 256 && val > 3 && val != sl.Primary // keep the 256-value reason/code domains small here
 			}, func(v gen.Vec, nd int) bool { targets = append(targets, append(gen.Vec{}, v...)); return true })
 		}
 		for _, v := range targets {
